@@ -19,6 +19,7 @@ FUNCTIONS = ["Queue.__aenter__", "Queue.__aexit__", "Queue.item_processed"]
 ASSUMPTIONS = ["asyncio.Queue (get/put/task_done/join) is the interpreter's own implementation, executed symbolically together with the subclass"]
 
 ALPHA = ("put", "cons", "brel", "bfail", "ccancel", "nop")
+ITEMS = (None, 0, "", (), 4, 5, 6, 7, 8, 9)      # the first items a producer puts are falsy on purpose
 NOP = len(ALPHA) - 1
 
 
@@ -50,7 +51,7 @@ def tpl_queue(maxsize, x1, a1, x2, a2, x3, a3, x4, a4, x5, a5, t, _twin=False):
             name = select(ALPHA, x)
             w.op(name, a)
             if name == "put":
-                w.spawn(producer(st["nput"]))
+                w.spawn(producer(ITEMS[st["nput"]]))
                 st["nput"] += 1
             elif name == "cons":
                 rec = [None, None, None]
@@ -91,7 +92,7 @@ def tpl_queue(maxsize, x1, a1, x2, a2, x3, a3, x4, a4, x5, a5, t, _twin=False):
                 if kind == "exc" and exc is not rec[2]:
                     w.fail(2003)
             for item, n in taken.items():
-                if n != 1 or not (0 <= item < st["nput"]):
+                if n != 1 or not any(item is x for x in ITEMS[:st["nput"]]):
                     w.fail(2004)
             if st["entered"] > st["puts"]:
                 w.fail(2005)
@@ -106,6 +107,12 @@ def tpl_queue(maxsize, x1, a1, x2, a2, x3, a3, x4, a4, x5, a5, t, _twin=False):
                 w.settle()
                 probe()
             else:
+                w.settle()
+                probe()
+        # finish: let every block that is still open exit, one at a time
+        for rec in cons:
+            if rec[1] is not None and not rec[1].done() and not rec[0].done():
+                rec[1].set_result(None)
                 w.settle()
                 probe()
         code = w.err
